@@ -211,6 +211,7 @@ func c11Prop(c *sim.Case) {
 	ho.noRT = false
 	ho.o.Discovery = false
 	ho.expIn = []int{30, 300, 7200}[sim.Pick(c, "login.expires_in", 3)]
+	ho.o.LiveJWKS = sim.Bool(c, "live-jwks") // the key source follows the provider's published keys (key rotation possible)
 	nsteps := 2 + sim.Pick(c, "lifetimes", 19)
 	m := &c11Mon{cur: map[string]*tokSet{}, delivered: map[int]string{}, refreshes: map[string]int{}, lastShape: map[string]string{}}
 	h := ho.build(c, m)
@@ -219,7 +220,24 @@ func c11Prop(c *sim.Case) {
 	h.exec(&op{K: "login", B: 0, Target: "/a"})
 	var tags []string
 	for i := 0; i < nsteps; i++ {
-		switch sim.Weighted(c, "step", 6, 2, 1, 1) {
+		w4 := 0
+		if ho.o.LiveJWKS {
+			w4 = 2
+		}
+		switch sim.Weighted(c, "step", 6, 2, 1, 1, w4) {
+		case 4: // the provider changes its signing key; the old key stays published or not
+			ks := sim.Keys()
+			nk := ks[(i+1)%4].With(fmt.Sprintf("rot-%d", i), "")
+			old := h.w.IdP.SignKey
+			h.w.IdP.SignKey = nk
+			if sim.Bool(c, "keep-old-key-published") {
+				h.w.IdP.Keys = []*sim.Key{nk, old}
+			} else {
+				h.w.IdP.Keys = []*sim.Key{nk}
+			}
+			tags = append(tags, "rotate-keys")
+			c.Logf("   provider rotates its signing key to %s (published: %d keys)", nk.Kid, len(h.w.IdP.Keys))
+			c.Class("key-rotation")
 		case 0: // let something expire, set the provider's next answer, request
 			o := op{K: "advance", B: 0}
 			o.Rel = sim.PickStr(c, "adv.rel", "idexp", "atexp")
